@@ -1120,7 +1120,7 @@ fn symc_bool(r: &mut Rng, d: u32) -> String {
             _ => format!("(action == Action::\"{}\")", if r.chance(50) { "view" } else { "edit" }),
         };
     }
-    match r.below(14) {
+    match r.below(16) {
         0 => format!("!({})", symc_bool(r, d - 1)),
         1 | 2 => format!("({} && {})", symc_bool(r, d - 1), symc_bool(r, d - 1)),
         3 | 4 => format!("({} || {})", symc_bool(r, d - 1), symc_bool(r, d - 1)),
@@ -1131,6 +1131,19 @@ fn symc_bool(r: &mut Rng, d: u32) -> String {
         10 => format!("({} == {})", symc_user(r, d - 1), symc_user(r, d - 1)),
         11 => format!("({} == {})", symc_str(r, d - 1), symc_str(r, d - 1)),
         12 => format!("({} == {})", symc_bool(r, d - 1), symc_bool(r, d - 1)),
+        // `like` on string-typed terms (literal patterns with wildcards / escaped star), optional `context.s` behind its guard
+        13 => {
+            let pat = ["x*", "*", "", "x y", "*y", "x\\*", "*x*", "?"][r.below(8)];
+            if r.chance(30) { format!("(context has s && context.s like \"{pat}\")") } else { format!("({} like \"{pat}\")", symc_str(r, d - 1)) }
+        }
+        // `is` on entity-typed terms
+        14 => match r.below(5) {
+            0 => format!("({} is User)", symc_user(r, d - 1)),
+            1 => "(principal is Doc)".into(),
+            2 => "(resource is Doc)".into(),
+            3 => "(context has u && context.u is User)".into(),
+            _ => "(action is Action)".into(),
+        },
         // planted: mixed types (the strict typechecker rejects these, or folds them away behind a constant guard)
         _ => match r.below(4) {
             0 => format!("({} == {})", symc_long(r, d - 1), symc_str(r, d - 1)),
